@@ -133,6 +133,35 @@ func runC11(c *Ctx) {
 			}
 		}
 		c.Require("C11.R3 node-index-symmetry", "saveNode writes", p.Pos(saveNode.Pos()), "both directions (hash→location, location→hash) are written", len(CallsInvoke(saveNode, "Set")) == 2, "")
+		// … on every path: the index answers with the node written last under a hash (a later
+		// node with the same hash replaces the entry). A write may only be skipped where the
+		// stored entry is known to equal the new one already.
+		{
+			sf := factsOf(saveNode)
+			for _, set := range CallsInvoke(saveNode, "Set") {
+				val := sf.Term(ArgK(set, 1)).String()
+				excused := map[*ssa.BasicBlock]bool{}
+				for i, e := range sf.Edges {
+					f := sf.Facts[i]
+					if !f.IsCmp && f.Truth && f.B.Op == "call" && strings.HasSuffix(f.B.Sym, "bytes.Equal") && len(e.To.Preds) == 1 {
+						for _, a := range f.B.Args {
+							if a.String() == val {
+								excused[e.To] = true
+							}
+						}
+					}
+				}
+				first := saveNode.Blocks[0].Instrs[0]
+				stop := func(in ssa.Instruction) bool {
+					return in == set.(ssa.Instruction) || (excused[in.Block()] && in == in.Block().Instrs[0])
+				}
+				var path []*ssa.BasicBlock
+				if !stop(first) {
+					path = reachesReturnAvoiding(first, stop, nil)
+				}
+				c.Require("C11.R3 node-index-symmetry", "saveNode: "+prefixOf(T(ArgK(set, 0)))+" ‖ "+T(ArgK(set, 0)).String()+" written on every path", p.InstrPos(set), "each index record is (re)written by every saveNode call — last write wins", path == nil, pathStr(path))
+			}
+		}
 		for _, k := range []string{"pkg/trie/rmt.(*RegularMerkleTree).getHash", "pkg/trie/rmt.(*RegularMerkleTree).getLocation"} {
 			fn := c.Anchor(k)
 			if fn == nil {
